@@ -201,13 +201,20 @@ Theorem deserialize_capacity_refused_old :
   option_map f_cap (deser_filt true (serialize (mkF 123 3 (2 ^ 32) false false 0 None 0) 0) false) = Some (2 ^ 32).
 Proof. vm_compute. split; reflexivity. Qed.
 
-(* for a non-empty filter the truncated capacity changes every index: the restored filter takes indices modulo 64 *)
-Theorem deserialize_capacity_indices_old : forall c nh seed nbs nbytes d,
-  parse false d false false false = PFull c nh seed nbs nbytes -> rd d 16 4 = 2 ^ 26 + 1 -> c = 64.
+(* for a non-empty filter the truncated capacity changes every index: an image of 2^26 + 1 longs (2^32 + 64 bits) is
+   restored as a filter that takes its indices modulo 64 (run against /repo: 0 of 100 inserted items were reported) *)
+Lemma parse_old_capacity : forall d ro wrap stream c nh seed nbs nbytes,
+  parse false d ro wrap stream = PFull c nh seed nbs nbytes -> c = round_cap (w32 (N.shiftl (rd d 16 4) 6)).
 Proof.
-  intros c nh seed nbs nbytes d Hp Hn. unfold parse in Hp. rewrite Hn in Hp.
+  intros d ro wrap stream c nh seed nbs nbytes Hp. unfold parse in Hp.
   repeat match type of Hp with (if ?b then _ else _) = _ => destruct b; try discriminate Hp end.
-  injection Hp as <- _ _ _ _. vm_compute. reflexivity.
+  congruence.
+Qed.
+
+Theorem deserialize_capacity_indices_old : forall c nh seed nbs nbytes d,
+  parse false d false false false = PFull c nh seed nbs nbytes -> rd d 16 4 = 67108865 -> c = 64.
+Proof.
+  intros c nh seed nbs nbytes d Hp Hn. rewrite (parse_old_capacity _ _ _ _ _ _ _ _ _ Hp), Hn. vm_compute. reflexivity.
 Qed.
 
 Print Assumptions wrap_after_update_refuted.
